@@ -2360,3 +2360,131 @@ func pathOrigins(f *ir.Func, fn *ssa.Function) *ir.Origins {
 	}
 	return org
 }
+
+// StoredObjectIsPassed (rule M): every store to field `field` in fn writes into a local object (the root of the
+// address chain: an Alloc, or the slice/pointer a loaded element belongs to) that is afterwards handed — itself or a
+// part of it, by address — as argument idx to a call of callee which the store dominates: the modified object, not an
+// unmodified original next to a modified copy, is what gets persisted.
+func (c *Ctx) StoredObjectIsPassed(fnSpec, field, callee string, idx int, desc string) {
+	role := "storedpassed/" + field + "/" + callee
+	f := c.Fn(fnSpec)
+	if f == nil {
+		return
+	}
+	sts := FieldStores(f, field)
+	if len(sts) == 0 {
+		c.add("M", fnSpec, role, desc, report.Violated, "no store to field "+field, c.fnPos(f))
+		return
+	}
+	root := func(v ssa.Value) ssa.Value {
+		for i := 0; i < 8; i++ {
+			switch x := v.(type) {
+			case *ssa.FieldAddr:
+				v = x.X
+			case *ssa.IndexAddr:
+				v = x.X
+			case *ssa.UnOp:
+				if x.Op.String() == "*" {
+					v = x.X
+				} else {
+					return v
+				}
+			case *ssa.ChangeType:
+				v = x.X
+			default:
+				return v
+			}
+		}
+		return v
+	}
+	calls := c.sites(f, c.X(callee))
+	for _, st := range sts {
+		r := root(st.Addr)
+		ok := false
+		for _, call := range calls {
+			args := call.Common().Args
+			if call.Common().IsInvoke() {
+				args = append([]ssa.Value{call.Common().Value}, args...)
+			}
+			if idx >= len(args) || call.Parent() != f.Fn {
+				continue
+			}
+			if root(args[idx]) == r && ir.InstrDominates(st, call) {
+				ok = true
+			}
+		}
+		if !ok {
+			c.add("M", fnSpec, role, desc, report.Violated, "the object whose "+field+" is written is not the one passed to "+callee+" afterwards", c.posOf(st))
+			return
+		}
+	}
+	c.add("M", fnSpec, role, desc, report.OK, fmt.Sprintf("%d store(s)", len(sts)), c.posOf(sts[0]))
+}
+
+// MustStore (rule M): every successful run of fn stores to field `field` a value matching pattern (the store sits on
+// every entry→success path): the bookkeeping update cannot be skipped by an early "nothing to do" return.
+func (c *Ctx) MustStore(fnSpec, field, pattern, desc string) {
+	role := "muststore/" + field
+	pattern = c.X(pattern)
+	f := c.Fn(fnSpec)
+	if f == nil {
+		return
+	}
+	blocks := map[*ssa.BasicBlock]bool{}
+	var seen []string
+	for _, st := range FieldStores(f, field) {
+		t := f.Term(st.Val)
+		seen = append(seen, t.String())
+		if ir.MatchAny(pattern, t) {
+			blocks[st.Block()] = true
+		}
+	}
+	if len(blocks) == 0 {
+		c.add("M", fnSpec, role, desc, report.Violated, "no store of "+pattern+" to "+field+"; stores: "+short(strings.Join(seen, " ; ")), c.fnPos(f))
+		return
+	}
+	if !mustPassWithin(f, blocks) {
+		c.add("M", fnSpec, role, desc, report.Violated, "a successful path avoids the store to "+field, c.fnPos(f))
+		return
+	}
+	c.add("M", fnSpec, role, desc, report.OK, fmt.Sprintf("%d store block(s) on every success path", len(blocks)), c.fnPos(f))
+}
+
+// LoopBodyStraight (rule O): in every loop of fn each block of the body either lies on every path to the loop's back
+// edge (it dominates all latches) or cannot reach a successful exit: no iteration skips part of the body (a
+// `continue` that drops an element) and none leaves the loop early on a successful run.
+func (c *Ctx) LoopBodyStraight(fnSpec, desc string) {
+	f := c.Fn(fnSpec)
+	if f == nil {
+		return
+	}
+	n := 0
+	for _, h := range f.Fn.Blocks {
+		body, latch := NaturalLoop(h)
+		if body == nil {
+			continue
+		}
+		n++
+		for _, b := range f.Fn.Blocks {
+			if !body[b] || b == h {
+				continue
+			}
+			dom := true
+			for _, l := range latch {
+				if !(b == l || b.Dominates(l)) {
+					dom = false
+				}
+			}
+			if !dom && f.CanSucceed(b) {
+				c.add("O", fnSpec, "loopstraight", desc, report.Violated, "part of the loop body is skipped on some iterations", c.blockPos(b, f))
+				return
+			}
+		}
+	}
+	if n == 0 {
+		c.add("O", fnSpec, "loopstraight", desc, report.Violated, "no loop found", c.fnPos(f))
+		return
+	}
+	c.add("O", fnSpec, "loopstraight", desc, report.OK, fmt.Sprintf("%d loop(s)", n), c.fnPos(f))
+}
+
